@@ -305,8 +305,18 @@ def judge_cases(rep, cases, deviations_open, what='scenario', attribute=None, si
         explained = {}
         vm_devs = [d for d in deviations_open if d in VM_DEVIATIONS]
         # 1. is the trace what the specification with ALL open deviations does?  (else: violation)
-        v3, res3 = vmrun.validate(rejected, deviations=vm_devs)
-        rep.add_tlc(res3, 'TraceVM +all open deviations on %d rejected traces' % len(rejected))
+        #    The property predicates are switched off in that run (a deviation breaks the predicate it is about), EXCEPT for
+        #    traces whose normative rejection IS a property predicate: those are re-judged with the predicates on, so that a
+        #    trace which follows the step semantics but violates a predicate is never "explained" by an unrelated deviation.
+        by_pred = [c for c in rejected if str(verdicts[c['tid']].get('why', '')).startswith('property ')]
+        by_step = [c for c in rejected if not str(verdicts[c['tid']].get('why', '')).startswith('property ')]
+        v3, res3 = vmrun.validate(by_step, deviations=vm_devs) if by_step else ({}, None)
+        if res3 is not None:
+            rep.add_tlc(res3, 'TraceVM +all open deviations on %d rejected traces' % len(by_step))
+        if by_pred:
+            v3p, res3p = vmrun.validate(by_pred, deviations=vm_devs, props=True)
+            rep.add_tlc(res3p, 'TraceVM +all open deviations, predicates on, on %d traces' % len(by_pred))
+            v3.update(v3p)
         ok_union = [c for c in rejected if v3.get(c['tid'], {}).get('v') in ('accepted', 'leftdomain')]
         # 2. attribute: the first single deviation (with the deviations it presupposes) that explains it
         def single(dev):
